@@ -55,6 +55,50 @@ func mk(n int) func(int) int {
 	}
 }
 
+func eachOf(xs []int, f func(int)) int {
+	for _, x := range xs {
+		f(x)
+	}
+	return int(len(xs))
+}
+
+func litThenPair() (int, int) {
+	h := func(x int) int {
+		return one(x)
+	}
+	_ = h
+	return pair(1, 2)
+}
+
+func litThenOne() int {
+	h := func(x int) (int, int) {
+		return pair(x, x)
+	}
+	_ = h
+	e := func() {
+		fmt.Println("e")
+	}
+	e()
+	return one(7)
+}
+
+func litArgOfReturn() int {
+	return eachOf([]int{1, 2}, func(x int) {
+		fmt.Println("each", x)
+	})
+}
+
+func litNested() (int, int) {
+	g := func(p int) (int, int) {
+		k := func(b int) int {
+			return one(b + 1)
+		}
+		return pair(k(p), p)
+	}
+	a, b := g(3)
+	return pair(a, b)
+}
+
 func vs(xs ...int) int {
 	n := 0
 	for _, x := range xs {
@@ -377,6 +421,9 @@ func testLoops() {
 func main() {
 	e0()
 	fmt.Println(e1(1))
+	l1, l2 := litThenPair()
+	l3, l4 := litNested()
+	fmt.Println(l1, l2, litThenOne(), litArgOfReturn(), l3, l4)
 	testInit()
 	testFuncs()
 	testData()
